@@ -8,6 +8,7 @@ from ..core import FUNC, call_attr, calls_in, const, dotted, is_const, kwarg, no
 from .c09 import waiter_rule, _stored_in_cancelled_table
 
 EXPLANATION = [
+    'C16.loss-reaches-sink: every path of BaseSource.on_transport_lost on which a sink with on_transport_lost exists calls it (the state of `terminated` does not gate the notification).',
     "C16.subscription-of-live-bearer: every creation of a `subscribers[bearer]` entry in the GATT server is guarded by an identity test of the bearer's connection against device.lookup_connection(handle) (write handlers run in tasks, possibly after the disconnection was processed).",
     'C16.pending-table-scope: the per-connection table of pending enhanced credit-based requests is dropped only by ChannelManager.on_disconnection; everything else removes its own identifier from the inner table.',
     'C16.loss-not-swallowed: in bumble.device / bumble.host, no handler that swallows a failure of an awaited HCI command (catching a class that covers TransportLostError without re-raising or returning) is followed by another await (other than a further command, which fails at once) in the same function.',
@@ -725,7 +726,36 @@ def subscription_of_live_bearer(ctx):
     R.check(dis is not None and any(call_attr(c) == 'pop' and dotted(c.func.value) == 'self.subscribers' for c in calls_in(dis)), rule, 'bumble.gatt_server.Server.on_disconnection | removes the entry', 'subscribers.pop(bearer)', 'on_disconnection no longer removes the subscribers entry', p.loc(dis) if dis is not None else '')
 
 
+def loss_reaches_sink(ctx):
+    """BaseSource.on_transport_lost() tells its sink on every path: some callers settle `terminated` themselves (with the
+    error) before they call it, so the state of that future must not decide whether the sink (the Host) is told."""
+    R, p = ctx.r, ctx.p
+    rule = 'C16.loss-reaches-sink'
+    fn = p.find('bumble.transport.common.BaseSource.on_transport_lost')
+    if fn is None:
+        R.bad(rule, 'bumble.transport.common.BaseSource.on_transport_lost', 'anchor missing')
+        return
+
+    class D(paths.Domain):
+        def event(self, node, v):
+            if isinstance(node, ast.Call) and dotted(node.func) == 'self.sink.on_transport_lost':
+                return ('told',)
+            return (v,)
+
+        def assume(self, atom, truth, v):
+            t = norm(atom)
+            if t == 'self.sink' and not truth:
+                return ('nobody',)
+            if t.startswith('hasattr(self.sink') and not truth:
+                return ('nobody',)
+            return (v,)
+    res = paths.run(fn, D(), 'silent')
+    bad = [f'{k} via {" ".join(w)}' for k, st in res.items() if not k.startswith('raise') for v, w in st.items() if v == 'silent']
+    R.check(bool(res) and not bad, rule, 'bumble.transport.common.BaseSource.on_transport_lost', 'the sink is told on every path on which there is one', f'a path returns without telling the sink ({bad[:1]}): a source that has already settled `terminated` itself (PumpedPacketSource sets the read error first) never reports the loss - pending commands, connections and queued packets of the host wait for ever', p.loc(fn))
+
+
 RULES = [
+    ('C16.loss-reaches-sink', loss_reaches_sink),
     ('C16.subscription-of-live-bearer', subscription_of_live_bearer),
     ('C16.pending-table-scope', pending_table_scope),
     ('C16.loss-not-swallowed', loss_not_swallowed),
